@@ -647,3 +647,6 @@ def run(chk):
     check_policy_translate(chk, F)
     check_wrappers(chk, F)
     chk.guard("R20.7", "wrapper-outcomes", check_wrapper_outcomes, chk, F)
+    from . import wholedesc
+    chk.guard("R20.8", "whole-descriptor-visit", wholedesc.check_visit, chk, F, "R20.8")
+    chk.guard("R20.9", "whole-descriptor-translate", wholedesc.check_translate, chk, F, "R20.9")
